@@ -28,7 +28,7 @@ ASSUMPTIONS = [
     "termination restated as a bound: at most 200 resampling rounds per step (the correct algorithm needs more with probability < 2^-190); wall-clock watchdog firing = inconclusive",
     "density clause judged for |gamma| >= 1e-3 only (statement: above rounding level); at zero force only bound, symmetry-free, and termination are judged",
 ]
-REQUIRED = {"tail_tests": 10, "steps": 1500, "steps_huge_force": 100, "steps_zero_force": 50, "steps_per_coordinate_delta": 100, "ks_tests": 12, "rounds_observed": 1500, "adaptive_steps": 50, "masses_updated_after_construction": 100}
+REQUIRED = {"steps_after_retuning": 200, "tail_tests": 10, "steps": 1500, "steps_huge_force": 100, "steps_zero_force": 50, "steps_per_coordinate_delta": 100, "ks_tests": 12, "rounds_observed": 1500, "adaptive_steps": 50, "masses_updated_after_construction": 100}
 SHARD_TIMEOUT = {"quick": 900, "thorough": 3000}
 MAX_ROUNDS = 200
 
@@ -44,9 +44,9 @@ def plan(tier, seed):
     gammas = [1e-3, 0.1, 1.0, 5.0, 50.0, 709.78, 1e5]
     for g in gammas:
         for sgn in (1, -1):
-            specs.append({"name": f"density-g{g:g}{'+' if sgn > 0 else '-'}", "mode": "density", "gamma": g * sgn, "seed": seed, "n": 100000 if tier == "quick" else 600000})
-    for j in range(8 if tier == "quick" else 16):
-        specs.append({"name": f"hostile{j}", "mode": "hostile", "j": j, "seed": seed, "cases": 400 if tier == "quick" else 2500})
+            specs.append({"name": f"density-g{g:g}{'+' if sgn > 0 else '-'}", "mode": "density", "gamma": g * sgn, "seed": seed, "n": 100000 if tier == "quick" else 2000000})
+    for j in range(8 if tier == "quick" else 32):
+        specs.append({"name": f"hostile{j}", "mode": "hostile", "j": j, "seed": seed, "cases": 400 if tier == "quick" else 6000})
     return specs
 
 
@@ -342,6 +342,21 @@ def run_hostile(spec, rec):
                     rec.count("steps_per_coordinate_delta")
                 if adaptive:
                     rec.count("adaptive_steps")
+            if not adaptive and rng.random() < 0.3:
+                # the live driver re-tuned through its documented attributes (delta, temperature, power) between steps
+                n_ = len(drv.atoms)
+                delta2 = float(10 ** rng.uniform(-3, 0.5)) if rng.random() < 0.5 else 10 ** rng.uniform(-3, 0.5, (n_, 3))
+                drv.delta = delta2
+                drv.temperature = float(10 ** rng.uniform(0, 4))
+                INTENDED_DELTA[id(drv)] = (drv, np.array(delta2, dtype=float, copy=True))
+                if rng.random() < 0.5:
+                    p2 = rng.uniform(0, 1, (n_, 3))
+                    drv.masses_scaling_power = p2
+                    INTENDED_POWER[id(drv)] = (drv, p2.copy())
+                for _ in range(2):
+                    drv.step()
+                    rec.evaluations += 1
+                    rec.count("steps_after_retuning")
         except TooManyRounds:
             rec.viol("C13/no-termination", f"more than {MAX_ROUNDS} resampling rounds in one step", wit)
         except Exception as ex:  # noqa: BLE001
